@@ -5,6 +5,7 @@ package zz_verif
 import (
 	"context"
 	"errors"
+	"time"
 
 	ipfslog "berty.tech/go-ipfs-log"
 	"berty.tech/go-ipfs-log/accesscontroller"
@@ -21,6 +22,8 @@ import (
 )
 
 var ctx = context.Background()
+
+func timeDur(ns int) time.Duration { return time.Duration(ns) }
 
 // ---- block store used through the public LogOptions.IO / FetchOptions.IO hooks ----
 
@@ -79,7 +82,7 @@ func (io *atomIO) Write(_ context.Context, _ coreiface.CoreAPI, obj interface{},
 
 func (io *atomIO) Read(_ context.Context, _ coreiface.CoreAPI, c cid.Cid) (format.Node, error) {
 	api := io.api
-	api.reads = append(api.reads, c.String())
+	vx.Atomic(func() { api.reads = append(api.reads, c.String()) })
 	if api.fault[c.String()] == faultAbsent {
 		return nil, errors.New("block not found")
 	}
